@@ -295,7 +295,8 @@ func (ir *ifdReader) ParseSubSecTime(t Tag) uint16 {
 }
 
 func (ir *ifdReader) parseLensInfo(t Tag) LensInfo {
-	if !t.IsEmbedded() {
+	// four rationals (32 bytes of any other type are not a lens specification)
+	if !t.IsEmbedded() && (t.IsType(tag.TypeRational) || t.IsType(tag.TypeSignedRational)) {
 		buf, err := ir.readTagValueMin(t, 32)
 		if err != nil {
 			return LensInfo{}
